@@ -14,3 +14,9 @@ package tlstcp
 //@   guarded_by lock: maxRecvSize config
 //@   immutable: addr proto hs closeQ
 //@   racy: l bound because written by Listen and read by Accept/Address/Close outside the lock; no consistent discipline in the code (outside the guard sweep)
+//@
+//@ func (*dialer).Dial
+//@   before call:SetOption#1 assert arg0 == mangos.OptionMaxRecvSize && arg1 == iface(maxRecvSize) && maxRecvSize == at("call:Unlock#1", d.maxRecvSize)
+//@
+//@ func (*listener).Listen$1
+//@   before call:SetOption#1 assert arg0 == mangos.OptionMaxRecvSize && arg1 == iface(l.maxRecvSize) && held(l.lock)
